@@ -262,7 +262,7 @@ func c20(c *core.Ctx, r *core.Report) {
 			okLoop := ok && isCounter(ia.Index)
 			why := "the element called is not indexed by a forward loop counter"
 			if okLoop {
-				if _, ok := upperGuard(call.Block(), ia.Index, ia.X, func(a, b ssa.Value) bool { return a == b }); !ok {
+				if _, ok := forwardBound(call.Block(), ia.Index, ia.X, func(a, b ssa.Value) bool { return a == b }); !ok {
 					okLoop, why = false, "the loop is not bounded by the length of the list (some components are skipped)"
 				}
 			}
